@@ -213,6 +213,13 @@ func evalClauses(cd *caseData) map[string]string {
 		}
 	}
 	bundles := u.HasBundle()
+	// derivedFrom: the package a derived (bundled) version stands for
+	derivedFrom := func(name, ver string) (string, bool) {
+		if v := findVersion(u, name, ver); v != nil {
+			return v.Attr.Get(universe.VerDerived)
+		}
+		return "", false
+	}
 	// E1, E4
 	for _, e := range r.Edges {
 		if !inRange(e.From) || !inRange(e.To) {
@@ -221,13 +228,21 @@ func evalClauses(cd *caseData) map[string]string {
 		}
 		from, to := r.Nodes[e.From], r.Nodes[e.To]
 		ds := importsOf(u, from, e)
-		if bundles {
-			continue // bundle-carrying universes: see bundle.go
-		}
 		tv := findVersion(u, to.Name, to.Ver)
+		orig, derived := derivedFrom(to.Name, to.Ver)
 		ok1 := false
 		for _, d := range ds {
-			if tv != nil && d.Name == to.Name && satisfies(d.Req, tv) {
+			if derived {
+				// a bundled copy: it stands for package `orig` at its own version string (with the
+				// registry's tags if the registry has that version)
+				ov := findVersion(u, orig, to.Ver)
+				if ov == nil {
+					ov = &universe.NpmVersion{Name: orig, Version: to.Ver}
+				}
+				if d.Name == orig && satisfies(d.Req, ov) {
+					ok1 = true
+				}
+			} else if tv != nil && d.Name == to.Name && satisfies(d.Req, tv) {
 				ok1 = true
 			}
 		}
@@ -235,7 +250,7 @@ func evalClauses(cd *caseData) map[string]string {
 			note("E1", fmt.Sprintf("edge %s@%s -[%s]-> %s@%s: target does not satisfy any requirement %q of the dependent on package %s",
 				from.Name, from.Ver, e.Req, to.Name, to.Ver, e.Req, to.Name))
 		}
-		if e.Type.Has(universe.DepSelector) {
+		if e.Type.Has(universe.DepSelector) && !derived {
 			ok4 := false
 			want := ""
 			for _, d := range ds {
@@ -258,12 +273,16 @@ func evalClauses(cd *caseData) map[string]string {
 			continue
 		}
 		for _, d := range v.Imports {
-			if d.Dev() || d.Scope() == "peer" {
+			if d.Dev() || d.Scope() == "peer" || isBundleContent(u, d) {
 				continue
 			}
 			found := false
 			for _, e := range r.Edges {
-				if e.From == i && inRange(e.To) && (r.Nodes[e.To].Name == d.Name || bundles) {
+				if e.From != i || !inRange(e.To) {
+					continue
+				}
+				t := r.Nodes[e.To]
+				if o, ok := derivedFrom(t.Name, t.Ver); t.Name == d.Name || (ok && o == d.Name) {
 					found = true
 				}
 			}
@@ -271,9 +290,6 @@ func evalClauses(cd *caseData) map[string]string {
 				if ne[0] == d.Name {
 					found = true
 				}
-			}
-			if bundles && isBundleContent(u, d) {
-				found = true
 			}
 			if !found {
 				note("E2", fmt.Sprintf("node %d %s@%s: requirement %s@%s has neither an edge nor an error", i, n.Name, n.Ver, d.Name, d.Req))
@@ -341,7 +357,15 @@ func evalClauses(cd *caseData) map[string]string {
 	return bad
 }
 
-func isBundleContent(u *universe.NpmUniverse, d universe.NpmImport) bool { return false }
+// isBundleContent: the requirement is not a dependency but the description of a
+// bundle's content: a plain requirement matching exactly one version, a derived one.
+func isBundleContent(u *universe.NpmUniverse, d universe.NpmImport) bool {
+	if !d.Type.IsRegular() {
+		return false
+	}
+	s := satisfying(u, d.Name, d.Req)
+	return len(s) == 1 && s[0].Attr.Has(universe.VerDerived)
+}
 
 // recheck evaluates one clause from the op line and its Go result alone.
 func recheck(oracle string, ops, res []string) (bool, string) {
@@ -408,5 +432,21 @@ func classify(oracle string, ops, res []string) string {
 			return "F-C06-alias-wrongpkg"
 		}
 	}
+	// a bundle that installs a package under another name creates an alias slot as well
+	if cd, err := decodeCase(ops[0], res[0]); err == nil && (oracle == "E1" || oracle == "E2") && hasBundleAlias(cd.u) {
+		return "F-C06-alias-wrongpkg"
+	}
 	return ""
+}
+
+// hasBundleAlias: some derived package version `…>name` is derived from a package of another name.
+func hasBundleAlias(u *universe.NpmUniverse) bool {
+	for _, v := range u.Versions {
+		if d, ok := v.Attr.Get(universe.VerDerived); ok {
+			if i := strings.LastIndex(v.Name, ">"); i >= 0 && v.Name[i+1:] != d {
+				return true
+			}
+		}
+	}
+	return false
 }
